@@ -3,6 +3,8 @@
 //! A case is a sequence of ops separated by spaces:
 //!   W:<relpath>:<content>   write an input file (parents created)
 //!   T:<relpath>:<content>   write an input file keeping the modification time it had (cp -p, rsync -t, an edit within the same second)
+//!   Y:<relpath>:<target>    create a symbolic link (the directory walkers of StaticFiles skip what is neither a regular file nor a
+//!                           directory; the listing `L` leaves symbolic links out, so the model does not see them either)
 //!   M:<reldir>              create an input directory
 //!   X:<relpath>             remove an input file or directory tree
 //!   N:<from>:<to>           rename an input file or directory
@@ -59,6 +61,9 @@ fn listing(dir: &Path, rel: &str, out: &mut Vec<String>) {
     };
     let mut here = Vec::new();
     for e in &entries {
+        if e.file_type().map(|t| t.is_symlink()).unwrap_or(false) {
+            continue;
+        }
         let is_dir = e.file_type().map(|t| t.is_dir()).unwrap_or(false);
         here.push(format!("{}/{}", hex(e.file_name().to_string_lossy().as_bytes()), if is_dir { "d" } else { "f" }));
     }
@@ -161,6 +166,13 @@ pub fn run() {
                             let _ = fh.set_modified(t);
                         }
                     }
+                }
+                "Y" => {
+                    let p = base.join(s(f[1]));
+                    if let Some(d) = p.parent() {
+                        std::fs::create_dir_all(d).unwrap();
+                    }
+                    let _ = std::os::unix::fs::symlink(s(f[2]), &p);
                 }
                 "M" => std::fs::create_dir_all(base.join(s(f[1]))).unwrap(),
                 "X" => {
